@@ -225,6 +225,106 @@ func verifC37Reply(rw *sliceReplyWriter) string {
 	return "ok"
 }
 
+// verifC37SlowTransport blocks transport writes while `gate` is open-ended (armed), without
+// holding any lock, and records the disconnect it is closed with.
+type verifC37SlowTransport struct {
+	*testTransport
+	armed chan struct{} // closed = writes block
+	gate  chan struct{} // closed = blocked writes continue
+}
+
+func (t *verifC37SlowTransport) wait() {
+	select {
+	case <-t.armed:
+		<-t.gate
+	default:
+	}
+}
+
+func (t *verifC37SlowTransport) Write(message []byte) error {
+	t.wait()
+	return t.testTransport.Write(message)
+}
+
+func (t *verifC37SlowTransport) WriteMany(messages ...[]byte) error {
+	t.wait()
+	return t.testTransport.WriteMany(messages...)
+}
+
+// verifC37Slow: a connection whose transport stops taking data gets k further messages of encoded
+// length L queued (the first message sent after the stall is in the writer's hands, not in the
+// queue).  Reports L, whether the connection was closed and with which code.
+func verifC37Slow(qmax, k int) (res string) {
+	defer func() {
+		if r := recover(); r != nil {
+			res = "PANIC"
+		}
+	}()
+	node, err := New(Config{LogLevel: LogLevelError, LogHandler: func(entry LogEntry) {}, ClientQueueMaxSize: qmax})
+	if err != nil {
+		return "slow-setup-failed"
+	}
+	if err := node.Run(); err != nil {
+		return "slow-setup-failed"
+	}
+	defer func() {
+		_ = node.Shutdown(context.Background())
+		time.Sleep(30 * time.Second)
+		synctest.Wait()
+	}()
+	ctx, cancelFn := context.WithCancel(context.Background())
+	tt := newTestTransport(cancelFn)
+	tt.setProtocolVersion(ProtocolVersion2)
+	tt.setProtocolType(ProtocolTypeJSON)
+	sink := make(chan []byte, 10000)
+	tt.setSink(sink)
+	tr := &verifC37SlowTransport{testTransport: tt, armed: make(chan struct{}), gate: make(chan struct{})}
+	c, _, err := NewClient(SetCredentials(ctx, &Credentials{UserID: "u"}), node, tr)
+	if err != nil {
+		return "slow-setup-failed"
+	}
+	rw := testReplyWriterWrapper()
+	if err := c.connectCmd(&protocol.ConnectRequest{}, &protocol.Command{Id: 1}, time.Now(), rw.rw); err != nil {
+		return "slow-setup-failed"
+	}
+	c.triggerConnect()
+	c.scheduleOnConnectTimers()
+	synctest.Wait()
+	for len(sink) > 0 {
+		<-sink
+	}
+	data := []byte(`{"verif":"0123456789"}`)
+	_ = c.Send(data)
+	synctest.Wait()
+	if len(sink) != 1 {
+		return "slow-setup-failed"
+	}
+	L := len(<-sink)
+	close(tr.armed)
+	_ = c.Send(data) // taken by the flusher, which now blocks in the transport
+	synctest.Wait()
+	for i := 0; i < k; i++ {
+		_ = c.Send(data)
+	}
+	close(tr.gate)
+	synctest.Wait()
+	c.mu.RLock()
+	closed := c.status == statusClosed
+	c.mu.RUnlock()
+	tt.mu.Lock()
+	code := tt.disconnect.Code
+	tt.mu.Unlock()
+	cl := 0
+	if closed {
+		cl = 1
+	}
+	if !closed {
+		_ = c.close(DisconnectForceNoReconnect)
+		synctest.Wait()
+	}
+	return fmt.Sprintf("slow L=%d qmax=%d k=%d closed=%d code=%d delivered=%d", L, qmax, k, cl, code, len(sink))
+}
+
 func (h *verifC37H) step(ws []string) (res string) {
 	defer func() {
 		if r := recover(); r != nil {
@@ -233,6 +333,15 @@ func (h *verifC37H) step(ws []string) (res string) {
 	}()
 	if len(ws) == 0 {
 		return "bad-op"
+	}
+	if ws[0] == "slow" {
+		m, ok1 := verifC37Int(ws, "qmax")
+		k, ok2 := verifC37Int(ws, "k")
+		if !ok1 || !ok2 {
+			return "bad-op"
+		}
+		h.stop()
+		return verifC37Slow(m, k)
 	}
 	if ws[0] == "reset" {
 		l, ok1 := verifC37Int(ws, "limit")
